@@ -367,6 +367,118 @@ example : (applyLoop 10 σ₀ (.builtin .apply) [.builtin .add, num 1, Value.ofL
     (applyLoop 10 σ₀ (.builtin .add) [num 1, num 2, num 3] 0).1 = .ok (num 6) := by
   constructor <;> with_unfolding_all rfl
 
+section sugar
+open Ruschm.Xform
+variable (f : String) (formalsD bsD : Datum) (ld lf l₁ l₂ l : Loc) (ld' lf' l₃ l₄ l₅ l₆ l₇ l₈ l' : Loc)
+
+/-- the datum `(define (f . formals) body…)` -/
+def sugarDatum : Datum :=
+  .pair (.sym "define" ld) (.pair (.pair (.sym f lf) formalsD l₁) bsD l₂) l
+/-- the datum `(define f (lambda formals body…))` -/
+def lambdaDatum : Datum :=
+  .pair (.sym "define" ld') (.pair (.sym f lf') (.pair (.pair (.sym "lambda" l₃) (.pair formalsD bsD l₄) l₅) (.nil l₆) l₇) l₈) l'
+
+/-- What `transform_to_statement` makes of the two spellings, exactly: both are the definition of `f`
+as `(lambda formals defs body)` with `formals = toFormals formalsD` and `(defs, body)` the
+transformed body data — identical but for (1) the location fields (sugar: the `lambda` node carries
+the location of the name `f`; explicit lambda: that of the `(lambda …)` datum), (2) the syntax scope
+the body is transformed in (sugar: the enclosing scope itself; explicit lambda: a fresh child scope,
+`inChild`, dropped afterwards), (3) three units of fuel. -/
+theorem define_sugar_eq (j : Nat) (s : SynEnv) :
+    toStatement (j+2) (sugarDatum f formalsD bsD ld lf l₁ l₂ l) s =
+      (do let formals ← toFormals formalsD
+          let (defs, body) ← toBody j bsD.elems [] []
+          pure (Statement.definition (.mk f (.lambda (.mk formals defs body) lf) l))) s ∧
+    toStatement (j+5) (lambdaDatum f formalsD bsD ld' lf' l₃ l₄ l₅ l₆ l₇ l₈ l') s =
+      (do let formals ← toFormals formalsD
+          let (defs, body) ← inChild (toBody j bsD.elems [] [])
+          pure (Statement.definition (.mk f (.lambda (.mk formals defs body) l₅) l'))) s := by
+  constructor
+  · rw [sugarDatum, toStatement_define, XM.bind_def, toDefinition_sugar]
+    simp only [XM.bind_def, XM.pure_def]
+    generalize toFormals formalsD s = x
+    obtain ⟨r, s'⟩ := x
+    cases r with
+    | error e => rfl
+    | ok fm =>
+      simp only
+      generalize toBody j bsD.elems [] [] s' = y
+      obtain ⟨r, s''⟩ := y
+      cases r <;> rfl
+  · rw [lambdaDatum, toStatement_define, XM.bind_def, elems_pair]
+    have : (Datum.nil l₆).elems = [] := rfl
+    rw [this, toDefinition_lambda]
+    simp only [XM.bind_def, XM.pure_def]
+    generalize toFormals formalsD s = x
+    obtain ⟨r, s'⟩ := x
+    cases r with
+    | error e => rfl
+    | ok fm =>
+      simp only
+      generalize inChild (toBody j bsD.elems [] []) s' = y
+      obtain ⟨r, s''⟩ := y
+      cases r <;> rfl
+
+/-- Consequently the two definitions have the same name and `Expr.beq`-equal right-hand sides
+(Rust's `==` on expressions, which ignores locations) whenever the body data transform to the same
+thing in the enclosing scope and in a fresh child scope of it. -/
+theorem define_sugar_beq_partial (j : Nat) (s : SynEnv)
+    (hscope : (inChild (toBody j bsD.elems [] []) s).1 = (toBody j bsD.elems [] [] s).1)
+    {n₁ e₁ d₁ s₁ n₂ e₂ d₂ s₂}
+    (h₁ : toStatement (j+2) (sugarDatum f formalsD bsD ld lf l₁ l₂ l) s = (.ok (.definition (.mk n₁ e₁ d₁)), s₁))
+    (h₂ : toStatement (j+5) (lambdaDatum f formalsD bsD ld' lf' l₃ l₄ l₅ l₆ l₇ l₈ l') s =
+            (.ok (.definition (.mk n₂ e₂ d₂)), s₂)) :
+    n₁ = n₂ ∧ Expr.beq e₁ e₂ = true := by
+  obtain ⟨g₁, g₂⟩ := define_sugar_eq f formalsD bsD ld lf l₁ l₂ l ld' lf' l₃ l₄ l₅ l₆ l₇ l₈ l' j s
+  rw [g₁] at h₁; rw [g₂] at h₂
+  simp only [XM.bind_def, XM.pure_def] at h₁ h₂
+  have henv := toFormals_env formalsD s
+  generalize toFormals formalsD s = x at h₁ h₂ henv
+  obtain ⟨r, s'⟩ := x
+  simp only at henv; subst henv
+  cases r with
+  | error e => simp at h₁
+  | ok fm =>
+    simp only at h₁ h₂
+    generalize toBody j bsD.elems [] [] s' = y at h₁ hscope
+    generalize inChild (toBody j bsD.elems [] []) s' = z at h₂ hscope
+    obtain ⟨rb, sb⟩ := y
+    obtain ⟨rb', sb'⟩ := z
+    simp only at hscope; subst hscope
+    cases rb' with
+    | error e => simp at h₁
+    | ok db =>
+      simp only [Prod.mk.injEq, Except.ok.injEq, Statement.definition.injEq, Def.mk.injEq] at h₁ h₂
+      obtain ⟨⟨rfl, rfl, _⟩, _⟩ := h₁
+      obtain ⟨⟨rfl, rfl, _⟩, _⟩ := h₂
+      exact ⟨rfl, by simp [Expr.beq, Lambda.beq_refl]⟩
+
+end sugar
+
+open Ruschm.Xform in
+/-- The unconditional statement (NOT proved; believed true — it needs the fact that the whole
+transformer depends on the syntax environment only through `SynEnv.get?`, a mutual induction over
+all of `RuschmModel/Xform.lean`). -/
+def define_sugar_beq_full : Prop :=
+  ∀ (f : String) (formalsD bsD : Datum) (ld lf l₁ l₂ l ld' lf' l₃ l₄ l₅ l₆ l₇ l₈ l' : Loc) (j : Nat) (s : SynEnv)
+    n₁ e₁ d₁ s₁ n₂ e₂ d₂ s₂,
+    toStatement (j+2) (sugarDatum f formalsD bsD ld lf l₁ l₂ l) s = (.ok (.definition (.mk n₁ e₁ d₁)), s₁) →
+    toStatement (j+5) (lambdaDatum f formalsD bsD ld' lf' l₃ l₄ l₅ l₆ l₇ l₈ l') s =
+      (.ok (.definition (.mk n₂ e₂ d₂)), s₂) →
+    n₁ = n₂ ∧ Expr.beq e₁ e₂ = true
+
+open Ruschm.Xform in
+/-- `(define (f x . r) (cons x r))` and `(define f (lambda (x . r) (cons x r)))` -/
+example :
+    let formalsD : Datum := .pair (.sym "x" none) (.sym "r" none) none
+    let bsD : Datum := Datum.ofList none [Datum.ofList none [.sym "cons" none, .sym "x" none, .sym "r" none]]
+    let a := toStatement 30 (sugarDatum "f" formalsD bsD none (some (1, 9)) none none none) [[]]
+    let b := toStatement 33 (lambdaDatum "f" formalsD bsD none none none none (some (1, 11)) none none none none) [[]]
+    (match a.1, b.1 with
+     | .ok (.definition (.mk n₁ e₁ _)), .ok (.definition (.mk n₂ e₂ _)) => n₁ == n₂ && Expr.beq e₁ e₂ && n₁ == "f"
+     | _, _ => false) = true := by
+  with_unfolding_all decide
+
 /-! ## 6. MAIN: the model refines the reference semantics
 
 `Ref.eval` (`RuschmSpec/Ref.lean`) is the direct-style evaluator written from the R7RS rules: no
